@@ -34,6 +34,8 @@ C12_NoSilentLoss(c, obs) ==
 
 (* C12: the bytes the connection accepted are the encodings of the envelopes *)
 (* reported as sent, in order, plus at most a prefix of one whose Send failed *)
+(* the byte path never panics *)
+C12_NoPanic(obs) == \A i \in 1 .. Len(obs) : obs[i].k # "panic"
 C12_WireClean(c, obs) ==
   \A i \in 1 .. Len(obs) : obs[i].k = "wire" =>
     LET so == SentOk(obs)
